@@ -19,16 +19,28 @@ Only a restricted subset of Python is understood:
   * calls of other helpers of the same module; `try/except ValueError` around an `einsum`
     whose subscripts do not fit the operand; `raise`.
 
-Anything else raises `TranslatorError` = the tie is broken (reported through `ctx.broken`);
-nothing is guessed.  The output is ONE Lean term per helper / size over core type classes
-(`Add Sub Mul Neg Div NatCast`), plus a table for the driver (`helperTable`) so that the very
-same terms are evaluated over `Rat` by `gen-selfcheck`.
+Anything else raises `TranslatorError`; nothing is guessed.  The output is ONE Lean term per
+helper / size over core type classes (`Add Sub Mul Neg Div NatCast`), plus a table for the driver
+(`helperTable`) so that the very same terms are evaluated over `Rat` by `gen-selfcheck`.
+
+Fallback when the translator is NOT APPLICABLE to a helper (its source left the subset, or a helper
+it calls did): the helper's definition and its `helperTable` row are KEPT, textually, from the last
+successful translation -- the existing `Gen/HelperFormulas.lean` (a committed file; if a helper is
+missing there, the version at git HEAD is consulted) -- under a comment line
+`-- KEPT from the last successful translation (translator not applicable now: <msg>)`.
+Nothing new is derived for such a helper: the theorems of Props/C20.lean are then statements about
+the OLD formula, and the only tie of that formula to the live code is the exact correspondence
+`gen-selfcheck[<name>]` run by props/c20.py (see `Ctx.translator_failed`).  `generate.kept` lists
+these helpers.  A helper without a previous definition (or whose previous definition no longer
+fits the job: other argument shapes, a callee that is gone) stays a failure = broken tie.
 """
 from __future__ import annotations
 
 import ast
 import inspect
 import itertools
+import re
+import subprocess
 import textwrap
 from fractions import Fraction
 
@@ -817,12 +829,168 @@ def translate():
     return results, failures
 
 
-def lean_text(results, failures):
+# ---------------------------------------------------------------------------
+# fallback: definitions kept from the last successful translation
+
+GEN_FILE = LEAN / "SkfemVerif" / "Gen" / "HelperFormulas.lean"
+KEPT_MARK = "-- KEPT from the last successful translation (translator not applicable now: "
+OP_OF_CLASS = {v: k for k, v in CLASS_OF.items()}
+OPS_ORDER = ("add", "sub", "mul", "neg", "div", "lit")
+_HEADER_RE = re.compile(r"^def (\w+) \{R : Type\}((?: \[\w+ R\])*)((?: \([^()]*\))*) : ([^()]*?) :=$")
+_BINDER_RE = re.compile(r"\((\w+) : ([^()]*)\)")
+_ROW_RE = re.compile(r'^  \("(\w+)", fun a => ')
+
+
+def _fins(t):
+    """'Fin 3 → Fin 3 → R' -> (3, 3); None if the type has another form"""
+    parts = [x.strip() for x in t.split("→")]
+    if not parts or parts[-1] != "R":
+        return None
+    out = []
+    for x in parts[:-1]:
+        m = re.fullmatch(r"Fin (\d+)", x)
+        if not m:
+            return None
+        out.append(int(m.group(1)))
+    return tuple(out)
+
+
+def header_line(name, ops, binders_text, ret):
+    cls = " ".join(f"[{CLASS_OF[o]} R]" for o in OPS_ORDER if o in ops)
+    return f"def {name} {{R : Type}} {cls} {binders_text} : {ret} :=".replace("  ", " ")
+
+
+def parse_generated(text):
+    """definitions and table rows of a previously generated file:
+    {name: dict(doc, ops, binders_text, bshapes, ret, lshape, body [lines], row)}; only blocks of exactly
+    the generated form are recognised (anything else is simply not available for keeping)"""
+    lines = text.splitlines()
+    blocks, rows = {}, {}
+    for i, line in enumerate(lines):
+        m = _HEADER_RE.match(line)
+        if m and m.group(1) != "helperTable":
+            name, cls, bs, ret = m.group(1), m.group(2), m.group(3).strip(), m.group(4).strip()
+            body = []
+            j = i + 1
+            while j < len(lines) and lines[j].strip() != "":
+                body.append(lines[j])
+                j += 1
+            classes = re.findall(r"\[(\w+) R\]", cls)
+            bshapes = [_fins(b[1]) for b in _BINDER_RE.findall(bs)]
+            lshape = _fins(ret)
+            if (not body or any(c not in OP_OF_CLASS for c in classes) or lshape is None
+                    or any(b is None for b in bshapes) or any(not l.startswith("  ") for l in body)):
+                continue
+            doc = lines[i - 1] if i > 0 and lines[i - 1].startswith("/-- ") and lines[i - 1].endswith("-/") else None
+            blocks[name] = {"doc": doc, "ops": {OP_OF_CLASS[c] for c in classes}, "binders_text": bs,
+                            "bshapes": bshapes, "ret": ret, "lshape": lshape, "body": body}
+            continue
+        m = _ROW_RE.match(line)
+        if m:
+            r = line.rstrip()
+            if r.endswith(","):
+                r = r[:-1]
+            elif r.endswith(")]"):
+                r = r[:-1]
+            rows[m.group(1)] = r
+    return {n: dict(b, row=rows[n]) for n, b in blocks.items() if n in rows}
+
+
+def previous_definitions():
+    """[(source, {name: block})]: the file on disk first, then the committed version (git HEAD)"""
+    out = []
+    try:
+        if GEN_FILE.exists():
+            out.append(("existing Gen/HelperFormulas.lean", parse_generated(GEN_FILE.read_text())))
+    except Exception:
+        pass
+    try:
+        p = subprocess.run(["git", "show", "HEAD:./SkfemVerif/Gen/HelperFormulas.lean"], cwd=LEAN, text=True,
+                           stdout=subprocess.PIPE, stderr=subprocess.DEVNULL, timeout=60)
+        if p.returncode == 0 and p.stdout:
+            out.append(("Gen/HelperFormulas.lean at git HEAD", parse_generated(p.stdout)))
+    except Exception:
+        pass
+    return out
+
+
+def spec_shapes(specs):
+    """binder shapes a job's argument specs give rise to (same order as build_args)"""
+    out = []
+    for sp in specs:
+        if sp[0] == "T":
+            out.append(tuple(sp[2]))
+        elif sp[0] == "F":
+            out += [tuple(shp) for shp in sp[2].values()]
+    return out
+
+
+def settle_kept(results, failures, previous):
+    """Decide which failed helpers are kept from a previous translation.
+    Returns (kept, failures'): kept[name] = dict(msg, source, variant, fname, specs, lshape, deps, ops, + the
+    parsed block); failures' = the failures that remain (no usable previous definition)."""
+    jobs = {j[0]: j for j in job_list()}
+    msgs = {}
+    for n, msg in failures:
+        msgs.setdefault(n, msg)          # first message = the cause
+    kept, why_not = {}, {}
+    for n, msg in msgs.items():
+        if n not in jobs or n in results:
+            continue
+        want = spec_shapes(jobs[n][3])
+        for source, blocks in previous:
+            b = blocks.get(n)
+            if b is None:
+                continue
+            if b["bshapes"] != want:
+                why_not[n] = f"the previous definition ({source}) has other argument shapes than the job"
+                continue
+            toks = set(re.findall(r"[A-Za-z_][\w']*", " ".join(b["body"])))
+            deps = sorted((toks & set(jobs)) - {n})
+            kept[n] = dict(b, msg=" ".join(str(msg).split()), source=source, variant=jobs[n][1], fname=jobs[n][2],
+                           specs=jobs[n][3], deps=deps, ops=set(b["ops"]))
+            why_not.pop(n, None)
+            break
+    # a kept definition is usable only if everything it calls is defined (fresh or kept)
+    changed = True
+    while changed:
+        changed = False
+        for n in list(kept):
+            gone = [d for d in kept[n]["deps"] if d not in results and d not in kept]
+            if gone:
+                why_not[n] = f"the previous definition calls {gone[0]}, which is not available"
+                del kept[n]
+                changed = True
+    # type classes through calls, in both directions between fresh and kept definitions
+    allr = dict(results)
+    allr.update(kept)
+    changed = True
+    while changed:
+        changed = False
+        for n, r in allr.items():
+            for d in r["deps"]:
+                if not allr[d]["ops"] <= r["ops"]:
+                    r["ops"] |= allr[d]["ops"]
+                    changed = True
+    rest = []
+    for n, msg in failures:
+        if n in kept:
+            continue
+        if n in why_not:
+            msg = f"{msg}; not kept: {why_not[n]}"
+        rest.append((n, msg))
+    return kept, rest
+
+
+def lean_text(results, failures, kept=None):
+    kept = kept or {}
     L = ["import SkfemVerif.Model.Helpers", "/-",
          "GENERATED by harness/skv/gens/helpers.py from the live source of skfem/helpers.py (np_*) and",
          "skfem/autodiff/helpers.py (jax_*) -- do not edit.  One term per helper and size; tensors are",
          "functions of their leading indices at one trailing position.",
          "-/", "namespace Skv.Gen.Helpers", "open Skv", ""]
+    allr = dict(results)
+    allr.update(kept)
     order = []
     done = set()
 
@@ -830,31 +998,32 @@ def lean_text(results, failures):
         if n in done:
             return
         done.add(n)
-        for d in results[n]["deps"]:
+        for d in allr[n]["deps"]:
             visit(d)
         order.append(n)
-    for n in results:
+    # job order (= the order of `results`), dependencies first
+    rank = {j[0]: k for k, j in enumerate(job_list())}
+    for n in sorted(allr, key=lambda x: rank.get(x, len(rank))):
         visit(n)
+    rows = []
     for n in order:
-        r = results[n]
-        cls = " ".join(f"[{CLASS_OF[o]} R]" for o in ("add", "sub", "mul", "neg", "div", "lit") if o in r["ops"])
+        r = allr[n]
+        if n in kept:
+            L.append(KEPT_MARK + r["msg"] + ")")
+            if r["doc"]:
+                L.append(r["doc"])
+            L.append(header_line(n, r["ops"], r["binders_text"], r["ret"]))
+            L += r["body"]
+            L.append("")
+            rows.append(r["row"])
+            continue
         bs = " ".join(f"({nm} : {ty(shp)})" for nm, shp in r["binders"])
         val = r["value"]
         L.append(f"/-- `{r['variant']}`: `{r['fname']}` on " +
                  ", ".join(f"{nm}{list(shp)}" for nm, shp in r["binders"]) + " -/")
-        L.append(f"def {n} {{R : Type}} {cls} {bs} : {ty(val.lshape)} :=".replace("  ", " "))
-        L.append("  " + render_tensor(val))
+        L.append(header_line(n, r["ops"], bs, ty(val.lshape)))
+        L.append("  " + (r.get("text") or render_tensor(val)))
         L.append("")
-    for n, msg in failures:
-        L.append(f"-- NOT TRANSLATED {n}: {msg}")
-    # driver table
-    L.append("")
-    L.append("/-- evaluation over `Rat` for the correspondence `gen-selfcheck`: arguments and result")
-    L.append("    flattened in C order -/")
-    L.append("def helperTable : List (String × (List (List Rat) → List Rat)) := [")
-    rows = []
-    for n in order:
-        r = results[n]
         args = []
         for k, (nm, shp) in enumerate(r["binders"]):
             src = f"(a.getD {k} [])"
@@ -862,8 +1031,15 @@ def lean_text(results, failures):
                 args.append(f"(tens0 {src})")
             else:
                 args.append(f"(tens{len(shp)} " + " ".join(str(d) for d in shp) + f" {src})")
-        rk = len(r["value"].lshape)
+        rk = len(val.lshape)
         rows.append(f"  (\"{n}\", fun a => flat{rk} ({n} " + " ".join(args) + "))")
+    for n, msg in failures:
+        L.append(f"-- NOT TRANSLATED {n}: {msg}")
+    # driver table
+    L.append("")
+    L.append("/-- evaluation over `Rat` for the correspondence `gen-selfcheck`: arguments and result")
+    L.append("    flattened in C order -/")
+    L.append("def helperTable : List (String × (List (List Rat) → List Rat)) := [")
     L.append(",\n".join(rows) + "]")
     L.append("")
     L.append("end Skv.Gen.Helpers")
@@ -874,10 +1050,41 @@ _CACHE = None
 
 
 def generate():
-    """regenerate Gen/HelperFormulas.lean; returns (changed?, results, failures)"""
+    """regenerate Gen/HelperFormulas.lean; returns (changed?, results, failures).
+
+    `results`: the helpers translated NOW; `failures`: [(name, msg)] without any definition in the file (broken
+    tie).  Helpers the translator is not applicable to but whose definition was kept from the last successful
+    translation are exposed as `generate.kept = [(name, msg)]` and `generate.kept_info[name] = dict(variant,
+    fname, specs, lshape, msg, source, deps)`; they are in neither `results` nor `failures`."""
     global _CACHE
+    generate.kept, generate.kept_info = [], {}
     results, failures = translate()
-    text = lean_text(results, failures)
-    changed = write_if_changed(LEAN / "SkfemVerif" / "Gen" / "HelperFormulas.lean", text)
+    # render first: a result that cannot be rendered is a failure of that helper, not of the run
+    changed = True
+    while changed:
+        changed = False
+        for n, r in list(results.items()):
+            gone = [d for d in r["deps"] if d not in results]
+            try:
+                if gone:
+                    raise TranslatorError(f"calls {gone[0]}, which could not be translated")
+                if "text" not in r:
+                    r["text"] = render_tensor(r["value"])
+            except TranslatorError as ex:
+                failures.append((n, str(ex)))
+                del results[n]
+                changed = True
+    kept, failures = settle_kept(results, failures, previous_definitions())
+    text = lean_text(results, failures, kept)
+    changed = write_if_changed(GEN_FILE, text)
     _CACHE = (results, failures)
+    order = {j[0]: k for k, j in enumerate(job_list())}
+    names = sorted(kept, key=lambda n: order[n])
+    generate.kept = [(n, kept[n]["msg"]) for n in names]
+    generate.kept_info = {n: {k: kept[n][k] for k in ("variant", "fname", "specs", "lshape", "msg", "source", "deps")}
+                          for n in names}
     return changed, results, failures
+
+
+generate.kept = []
+generate.kept_info = {}
